@@ -47,7 +47,8 @@ BOUNDS = {
              'host datetimes and 108 x 9 aware host datetimes',
     'thorough': '108 grid datetimes x 41 offsets x (..., 3 timestamps x 2, 11 timespans x 5 arithmetic laws); 12 core '
                 'datetimes x all 2879 minute offsets x (construct, offset, timestamp, utc, round trip, from-timestamp x 2); '
-                '108 grid datetimes x 41 x 41 offsets x 3 relations x 6 comparison operators; timespans with <= 4 non-zero '
+                '12 core datetimes x 41 x 41 offsets and the other 96 grid datetimes x 41 x 13 offsets x 3 relations x 6 comparison '
+                'operators; timespans with <= 4 non-zero '
                 'components plus the full product over {0, 1, -59, 86399, -10^6}; 108 naive and 108 x 41 aware host datetimes',
 }
 
@@ -81,6 +82,7 @@ CORE4 = [(1970, 1, 1) + TIMES[0], (2000, 12, 31) + TIMES[2], (1, 1, 1) + TIMES[2
 OFFSETS = [0] + [s * m for m in (1, 2, 29, 30, 59, 60, 61, 120, 180, 330, 345, 540, 570, 719, 720, 765, 840,
                                  1380, 1438, 1439) for s in (1, -1)]
 ALL_MINUTES = list(range(-1439, 1440))
+O2_FEW = [0] + [s * m for m in (1, 60, 330, 720, 765, 1439) for s in (1, -1)]
 VALUES = [0, 1, -1, 59, -59, 86399, -86399, 10 ** 6, -10 ** 6]
 SPANS = [{'microseconds': 1}, {'seconds': -86399}, {'days': 1, 'microseconds': -1}, {'days': 10 ** 6},
          {'hours': -1, 'minutes': 59},
@@ -367,8 +369,8 @@ def check_pair(L, a_exp, a, b_exp, b, case, ident):
         L.verdict('compare ' + op, ok, ('v', got[i]) if got is not None else obs, repr(want[i]), case, key)
 
 
-def job_pairs(tier, civils, part, parts):
-    """Pairs (a, b): a = civil at o1 for the o1 of this part, b related to a at every o2."""
+def job_pairs(tier, civils, part, parts, o2s):
+    """Pairs (a, b): a = civil at o1 for the o1 of this part, b related to a at every o2 of o2s."""
     res = Result()
     L = Laws(res)
     for civil in civils:
@@ -380,7 +382,7 @@ def job_pairs(tier, civils, part, parts):
             a_exp, a = built[o1]
             if a is None:
                 continue
-            for o2 in OFFSETS:
+            for o2 in o2s:
                 for rel in RELATIONS:
                     case = {'kind': 'pair', 'civil': list(civil), 'offset': o1, 'offset2': o2, 'relation': rel}
                     ident = ('pairs', civil, o1, o2, rel)
@@ -495,20 +497,25 @@ def check_naive(L, naive, exp, case, ident, one_us):
 
 def jobs(tier, seed):
     out = []
-    for i in range(18):
-        out.append(('grid-%02d' % i, 'job_grid', (tier, GRID[i::18])))
-    for i in range(16):
-        out.append(('minutes-%02d' % i, 'job_minutes', (tier, ALL_MINUTES[i::16])))
-    if tier == 'thorough':
-        for i in range(18):
-            out.append(('pairs-%02d' % i, 'job_pairs', (tier, GRID[i::18], 0, 1)))
+    thorough = tier == 'thorough'
+    n = 12 if thorough else 18
+    for i in range(n):
+        out.append(('grid-%02d' % i, 'job_grid', (tier, GRID[i::n])))
+    n = 12 if thorough else 16
+    for i in range(n):
+        out.append(('minutes-%02d' % i, 'job_minutes', (tier, ALL_MINUTES[i::n])))
+    if thorough:
+        for i, c in enumerate(CORE12):
+            out.append(('pairs-core-%02d' % i, 'job_pairs', (tier, [c], 0, 1, OFFSETS)))
+        rest = [c for c in GRID if c not in CORE12]
+        for i in range(14):
+            out.append(('pairs-grid-%02d' % i, 'job_pairs', (tier, rest[i::14], 0, 1, O2_FEW)))
     else:
         for i, c in enumerate(CORE4):
             for part in range(4):
-                out.append(('pairs-%02d-%d' % (i, part), 'job_pairs', (tier, [c], part, 4)))
-    n = 10
-    for i in range(n):
-        out.append(('spans-%02d' % i, 'job_spans', (tier, i, n)))
+                out.append(('pairs-%02d-%d' % (i, part), 'job_pairs', (tier, [c], part, 4, OFFSETS)))
+    for i in range(10):
+        out.append(('spans-%02d' % i, 'job_spans', (tier, i, 10)))
     for i in range(4):
         out.append(('host-%d' % i, 'job_host', (tier, GRID[i::4])))
     return out
